@@ -130,7 +130,9 @@ pub fn take_panic_msgs() -> Vec<String> {
 /// Runs `runf` under catch_unwind; a panic becomes a Failure with clause "panic"
 pub fn guarded<T>(case: &T, dir: &Path, runf: &(dyn Fn(&T, &Path) -> Result<CaseOut, Failure> + Sync)) -> Result<CaseOut, Failure> {
     let r = std::panic::catch_unwind(std::panic::AssertUnwindSafe(|| runf(case, dir)));
-    let _ = std::fs::remove_dir_all(dir);
+    if std::env::var("VERIF_KEEP").is_err() {
+        let _ = std::fs::remove_dir_all(dir);
+    }
     match r {
         Ok(r) => r,
         Err(p) => {
@@ -150,7 +152,34 @@ pub fn replay_dir(ctx: &RunCtx) -> PathBuf {
     ctx.verif_dir.join("replays").join("found")
 }
 
+thread_local! {
+    static REPLAY_OVERRIDE: std::cell::RefCell<Option<PathBuf>> = std::cell::RefCell::new(None);
+}
+
+/// A check whose generated case is not a deterministic replay (the failing state depends on scheduling)
+/// saves the concrete failing state itself and registers that file as the replay of the failure it is about to return
+pub fn set_replay_override(p: PathBuf) {
+    REPLAY_OVERRIDE.with(|r| *r.borrow_mut() = Some(p));
+}
+
+pub fn take_replay_override() -> Option<PathBuf> {
+    REPLAY_OVERRIDE.with(|r| r.borrow_mut().take())
+}
+
+/// Writes an arbitrary replay body (used with `set_replay_override`)
+pub fn write_replay_value(ctx_verif_dir: &Path, prop: &str, phase: &str, case: &Value, f: &Failure) -> PathBuf {
+    let dir = ctx_verif_dir.join("replays").join("found");
+    let _ = std::fs::create_dir_all(&dir);
+    let body = json!({"property": prop, "phase": phase, "failure": { "clause": f.clause, "detail": f.detail, "step": f.step, "op": f.op }, "case": case});
+    let path = dir.join(format!("{}-{}-{:016x}.json", prop, phase, fnv(&serde_json::to_vec(case).unwrap_or_default())));
+    let _ = std::fs::write(&path, serde_json::to_vec_pretty(&body).unwrap_or_default());
+    path
+}
+
 pub fn write_replay<T: Serialize>(ctx: &RunCtx, phase: &str, case: &T, f: &Failure) -> PathBuf {
+    if let Some(p) = take_replay_override() {
+        return p;
+    }
     let dir = replay_dir(ctx);
     let _ = std::fs::create_dir_all(&dir);
     let body = json!({
